@@ -435,6 +435,9 @@ def do_step(W, step):
         return op, name, set(), {'parent': a}
     if op == 'mandatory':
         t = rng.choice(list(W.pool))
+        longer = [n for n in W.pool if W.kind[n] == 'Unicode' and (W.facets.get(n) or {}).get('min_len', 0) > 1]
+        if longer and rng.random() < .3:
+            t = rng.choice(longer)          # a string type that already wants more than one character
         W.log.append((step, op, t))
         new = Mandatory(W.pool[t])
         name = W.fresh('M')
@@ -442,7 +445,7 @@ def do_step(W, step):
         if f is not None:
             f['nillable'] = False
         if f is not None and W.kind[t] == 'Unicode':
-            f['min_len'] = 1
+            f['min_len'] = max(1, f.get('min_len', 0))       # (at least one character, never weaker than the original)
         W.add(name, new, W.kind[t], parents=[t], facets=f, decl=list(W.decl[t]) if t in W.decl else None, base=W.base.get(t))
         return op, name, set(), {'parent': t, 'mandatory': True}
     if op in ('subclass', 'newclass'):
